@@ -279,6 +279,7 @@ theorem resizeMem_sat (h : Rel k true ne L s0 s) (off len : Nat) (ho : off < U64
         memWF := hwf
         memCk := by show m'.lastCheckpoint ≤ _; rw [hck]; exact h.memCk
         memL := by show max L (off + len) ≤ clen m'; omega
+        grow := by show clen s0.mem ≤ clen m'; have := h.grow; omega
         meas := by rw [hmeq]; exact h.meas
         strict := fun _ => by rw [hmeq]; exact hstrict
         safe := Or.inl (by rw [hmeq]; exact hstrict) }
@@ -301,6 +302,7 @@ theorem memWrite_sat (h : Rel k st ne L s0 s) (r : Memory.Res Memory.SharedMemor
       memWF := WF_shape h.memWF hs
       memCk := by show m'.lastCheckpoint ≤ _; rw [hs.1]; exact h.memCk
       memL := by show L ≤ clen m'; rw [clen_shape hs]; exact h.memL
+      grow := by show clen s0.mem ≤ clen m'; rw [clen_shape hs]; exact h.grow
       meas := by rw [hmeq]; exact h.meas
       strict := fun e => by rw [hmeq]; exact h.strict e
       safe := by rw [hmeq]; exact h.safe }
